@@ -533,6 +533,17 @@ func TestVerifC10b(t *testing.T) {
 		mut{"unsupported-version", "null", func(d map[string]any) { d["configVersion"] = nil }},
 		mut{"unsupported-version", "missing with v1 fields", func(d map[string]any) { delete(d, "configVersion") }},
 	)
+	// an included name is unknown also when the hook has no kubernetes binding at all
+	for _, kind := range []string{"schedule", "kubernetesValidating", "kubernetesMutating", "kubernetesCustomResourceConversion"} {
+		kind := kind
+		muts = append(muts, mut{"unknown-include", kind + " in a hook without kubernetes bindings", func(d map[string]any) {
+			delete(d, "kubernetes")
+			for _, k := range []string{"schedule", "kubernetesValidating", "kubernetesMutating", "kubernetesCustomResourceConversion"} {
+				delete(at(d, k, 0).(map[string]any), "includeSnapshotsFrom")
+			}
+			at(d, kind, 0).(map[string]any)["includeSnapshotsFrom"] = []any{"pods"}
+		}})
+	}
 	// metadata.name in a fieldSelector excludes nameSelector.matchNames whatever the operator and
 	// wherever the expression stands in the list
 	for _, op := range []string{"NotEquals", "!=", "==", "="} {
